@@ -69,7 +69,7 @@ class ErrWalk:
                     err = "set"
                 elif name == "PyErr_Fetch":
                     err = "clear"
-            else:
+            elif it[0] == "atom":
                 _, text, truth, nid = it
                 if not isinstance(truth, bool):
                     continue
